@@ -988,7 +988,11 @@ func siblingStatement(c *l2Case) (recentStmt, bool) {
 		raw, _ := hex.DecodeString(rawHex)
 		types, _ := sm["types"].([]any)
 		if sm["k"] == "output" && len(types) >= 2 {
-			last, _ := types[len(types)-1].(map[string]any)
+			// the target right after the first one if it names a member, else the last
+			last, _ := types[1].(map[string]any)
+			if m1, _ := hex.DecodeString(fmt.Sprint(last["m"])); string(m1) == "*" {
+				last, _ = types[len(types)-1].(map[string]any)
+			}
 			tn, _ := hex.DecodeString(fmt.Sprint(last["t"]))
 			mem, _ := hex.DecodeString(fmt.Sprint(last["m"]))
 			if e, ok := zoo.ByName(string(tn)); ok && string(mem) != "*" {
